@@ -282,3 +282,63 @@ def C08_elementwise_refresh_family():
 
 
 ALL["C08_elementwise_refresh_family"] = C08_elementwise_refresh_family
+
+
+# --------------------------------------------------------------------------- T1 / T2
+def C02_cast_family():
+    """x:S -> Cast(to=M) -> Cast(to=T) -> Identity over S, M, T in {bool, int8, uint8, int32, int64, float16, float32, float64}
+    with inputs at the extremes of S, the intermediate optionally a graph output / read by a second consumer, and a
+    statically bounded int64 source (Range 0..k).  remove_redundant_casts_ir must change no output."""
+    from onnx import helper, TensorProto, numpy_helper
+    T = TensorProto
+    types = {T.BOOL: np.bool_, T.INT8: np.int8, T.UINT8: np.uint8, T.INT32: np.int32, T.INT64: np.int64, T.FLOAT16: np.float16, T.FLOAT: np.float32, T.DOUBLE: np.float64}
+
+    def samples(dt):
+        if dt == np.bool_:
+            return np.array([True, False, True])
+        if np.issubdtype(dt, np.integer):
+            ii = np.iinfo(dt)
+            return np.array([ii.min, -1 if ii.min < 0 else 1, 0, 1, 2, 127, 128, 255, 256, ii.max // 3, ii.max], dtype=np.int64).clip(ii.min, ii.max).astype(dt)
+        fi = np.finfo(dt)
+        return np.array([0.0, 1.0, -1.5, 0.1, 1e-3, 255.0, 256.5, 65504.0, 70000.0, 16777217.0, 3e9, float(fi.max) / 2, -float(fi.max) / 2], dtype=np.float64).clip(float(fi.min), float(fi.max)).astype(dt)
+    n = 0
+    for S, M, Tt in itertools.product(types, types, types):
+        if Tt != S and Tt != M:
+            continue
+        for variant in ("plain", "mid_is_output", "mid_second_consumer"):
+            x = samples(types[S])
+            nodes = [helper.make_node("Identity", ["x"], ["xi"]), helper.make_node("Cast", ["xi"], ["m"], to=M, name="c1"), helper.make_node("Cast", ["m"], ["t"], to=Tt, name="c2"), helper.make_node("Identity", ["t"], ["y"])]
+            outs = [helper.make_tensor_value_info("y", Tt, [len(x)])]
+            if variant == "mid_is_output":
+                outs.append(helper.make_tensor_value_info("m", M, [len(x)]))
+            elif variant == "mid_second_consumer":
+                nodes.append(helper.make_node("Identity", ["m"], ["z"]))
+                outs.append(helper.make_tensor_value_info("z", M, [len(x)]))
+            vis = [helper.make_tensor_value_info("xi", S, [len(x)]), helper.make_tensor_value_info("m", M, [len(x)]), helper.make_tensor_value_info("t", Tt, [len(x)])]
+            g = helper.make_graph(nodes, "g", [helper.make_tensor_value_info("x", S, [len(x)])], outs, value_info=vis)
+            m = helper.make_model(g, opset_imports=[helper.make_opsetid("", 21)])
+            m.ir_version = 10
+            what = f"{T.DataType.Name(S)} -> Cast({T.DataType.Name(M)}) -> Cast({T.DataType.Name(Tt)}) [{variant}]"
+            import warnings
+            with warnings.catch_warnings():
+                warnings.simplefilter("ignore")
+                ok, detail = check_pass(m, _single("remove_redundant_casts_ir"), {"x": x}, what)
+            if ok is False:
+                return False, detail
+            n += 1 if ok else 0
+    # statically bounded source: Range(0, k, 1) : int64 -> M -> int64
+    for k, M in itertools.product((5, 127, 128, 129, 255, 256, 300), (T.INT8, T.UINT8, T.INT32)):
+        inits = [numpy_helper.from_array(np.asarray(v, dtype=np.int64), nm) for nm, v in (("s", 0), ("l", k), ("d", 1))]
+        nodes = [helper.make_node("Range", ["s", "l", "d"], ["r"]), helper.make_node("Cast", ["r"], ["m"], to=M), helper.make_node("Cast", ["m"], ["t"], to=T.INT64), helper.make_node("Add", ["t", "x"], ["y"])]
+        g = helper.make_graph(nodes, "g", [helper.make_tensor_value_info("x", T.INT64, [1])], [helper.make_tensor_value_info("y", T.INT64, [k])], initializer=inits,
+                              value_info=[helper.make_tensor_value_info("r", T.INT64, [k]), helper.make_tensor_value_info("m", M, [k]), helper.make_tensor_value_info("t", T.INT64, [k])])
+        m = helper.make_model(g, opset_imports=[helper.make_opsetid("", 21)])
+        m.ir_version = 10
+        ok, detail = check_pass(m, _single("remove_redundant_casts_ir"), {"x": np.zeros((1,), np.int64)}, f"Range(0,{k}) int64 -> Cast({T.DataType.Name(M)}) -> Cast(INT64)")
+        if ok is False:
+            return False, detail
+        n += 1 if ok else 0
+    return True, f"{n} cast graphs unchanged"
+
+
+ALL["C02_cast_family"] = C02_cast_family
